@@ -174,11 +174,6 @@ theorem addAtom_normal (S : Store) (ident : Ident) (w : Weight) :
     refine ⟨S.nodes.length + 1, ?_, ?_, ?_, Or.inr ⟨rfl, rfl, ?_, ?_⟩⟩ <;>
       simp [Store.addAtom, Store.addAtomNode, hl, lookup_snoc_self]
 
-theorem negate_some (k : Int) (h : k ≠ 0) : negate (some k) = some (-k) := by
-  unfold negate
-  split
-  · rename_i heq; cases heq
-  · rename_i heq; cases heq; exact absurd rfl h
-  · rename_i heq; cases heq; rfl
+theorem negKey_some (k : Int) : negKey (some k) = some (-k) := rfl
 
 end ProbLogProofs.DDNNF
